@@ -182,3 +182,8 @@ Proof.
   2:{ intros [i f] [rs vs]. unfold filt_body, new_filter_of, py_rename, py_json_loads. cbn [fst snd]. reflexivity. }
   destruct (rename_filters ren c _) as [outs|]; [|reflexivity]. simpl. destruct (collect recs outs); reflexivity.
 Qed.
+
+(* ---- the guard of the data half: `if not col.is_formula():` *)
+Theorem rename_guard_bridge : forall is_formula has_formula,
+  rename_guard is_formula has_formula = Val (negb is_formula).
+Proof. intros. reflexivity. Qed.
